@@ -10,10 +10,20 @@ package secrets
 //@ func (Version).IsValidAt
 //@   ensures [C17:iff_window] result <==> versionValidAt(v.ValidFrom, v.ValidUntil, t)
 
+//@ spec
+//@ pred newerVersion(af time.Time, aid string, bf time.Time, bid string) := ite(af == bf, aid < bid, af > bf)
+
 //@ func (Set).ValidAt$1
-//@   trusted
+//@   requires 0 <= i && i < len(out) && 0 <= j && j < len(out)
+//@   ensures [C17:newest_first_then_id] result <==> newerVersion(out[i].ValidFrom, out[i].ID, out[j].ValidFrom, out[j].ID)
 
 //@ func (Set).ValidAt
+//@   loop 1 ghost plen int := 0 step len(out)
+//@   loop 1 ghost pos gmap[int]int := _ step ite(len(out) != plen, store(pos, rangeindex, plen), pos)
+//@   loop 1 invariant [positions] plen == len(out) && fresh(out.arr) && forall j int :: 0 <= j && j <= rangeindex && versionValidAt(s.Versions[j].ValidFrom, s.Versions[j].ValidUntil, t) ==> 0 <= pos[j] && pos[j] < len(out) && out[pos[j]].ID == s.Versions[j].ID && out[pos[j]].Value == s.Versions[j].Value
 //@   loop 1 invariant [filtered] forall k int :: 0 <= k && k < len(out) ==> versionValidAt(out[k].ValidFrom, out[k].ValidUntil, t) && (exists j int :: 0 <= j && j <= rangeindex && s.Versions[j].ID == out[k].ID && s.Versions[j].Value == out[k].Value && s.Versions[j].ValidFrom == out[k].ValidFrom && s.Versions[j].ValidUntil == out[k].ValidUntil)
 //@   loop 1 invariant [complete] forall j int :: 0 <= j && j <= rangeindex && versionValidAt(s.Versions[j].ValidFrom, s.Versions[j].ValidUntil, t) ==> exists k int :: 0 <= k && k < len(out) && out[k].ID == s.Versions[j].ID && out[k].Value == s.Versions[j].Value
 //@   loop 1 invariant [bounds] rangeindex < len(s.Versions) && len(out) <= rangeindex + 1
+//@   ensures [C17:only_versions_valid_at_t] forall k int :: 0 <= k && k < len(result) ==> versionValidAt(result[k].ValidFrom, result[k].ValidUntil, t) && exists j int :: 0 <= j && j < len(s.Versions) && s.Versions[j].ID == result[k].ID && s.Versions[j].Value == result[k].Value
+//@   ensures [C17:every_version_valid_at_t] forall j int :: 0 <= j && j < len(s.Versions) && versionValidAt(s.Versions[j].ValidFrom, s.Versions[j].ValidUntil, t) ==> let k := perminv[pos[j]] :: 0 <= k && k < len(result) && result[k].ID == s.Versions[j].ID && result[k].Value == s.Versions[j].Value
+//@   ensures [C17:newest_first] forall j int, k int :: 0 <= j && j < k && k < len(result) ==> !newerVersion(result[k].ValidFrom, result[k].ID, result[j].ValidFrom, result[j].ID)
